@@ -32,6 +32,11 @@ def programs(ctx):
             v.fields.append(F.Field("b" if v.kind == "named" else None, "u8", plain))
         out.append(F.build_prog("p_%04d" % i, td, want=(), laws=True))
         i += 1
+    # `==` derived from a genuinely partial `partial_ord(by = ..)` (no Ord): incomparable pairs are not equal
+    for j, (po, placement) in enumerate([(("by",), "named"), (("reverse", "by"), "tuple"), (("by",), "variant")]):
+        c = {"ord": (), "partial_ord": po, "eq": (), "partial_eq": (), "hash": ()}
+        td = F.single_field_typedef(c, ["PartialEq", "PartialOrd"], placement, entry=["attr", "derive"][j % 2], keys="consistent", ty="u8")
+        out.append(F.build_prog("p_%04d" % (i + j), td, want=(), laws=True))
     return out
 
 
